@@ -1206,6 +1206,12 @@ class Scenario(TagAndStatusStatement, Replayable):
                     if not found_step_match:
                         step.status = Status.undefined
                         runner.undefined_steps.append(step)
+                        if dry_run_scenario:
+                            # -- KEEP FORMATTERS IN SYNC: Each processed step
+                            # in dry-run mode is reported with match/result.
+                            for formatter in runner.formatters:
+                                formatter.match(NoMatch())
+                                formatter.result(step)
                     elif dry_run_scenario:
                         # -- BETTER DIAGNOSTICS: Provide step file location
                         # (when --format=pretty is used).
